@@ -125,6 +125,27 @@ function runRegexBatch(c) {
   return { res: res };
 }
 
+function runRegexMatrix(c) {
+  // c.pats: [[p, f], ...], c.subjects: [s...] -> rows[pat] = 'ERR:name' | [ per subject: null | [index, g0, g1, ...] ]
+  const rows = [];
+  for (const pf of c.pats) {
+    let re;
+    try { re = new RegExp(pf[0], pf[1]); } catch (ex) { rows.push('ERR:' + (ex && ex.name)); continue; }
+    const row = [];
+    for (const s of c.subjects) {
+      re.lastIndex = 0;
+      let m;
+      const t0 = Date.now();
+      try { m = re.exec(s); } catch (ex) { row.push('THROW'); continue; }
+      if (Date.now() - t0 > 50) { row.push('SLOW'); continue; }
+      if (m === null) row.push(null);
+      else { const r = [m.index]; for (let i = 0; i < m.length; i++) r.push(m[i] === undefined ? null : m[i]); row.push(r); }
+    }
+    rows.push(row);
+  }
+  return { rows: rows };
+}
+
 const rl = readline.createInterface({ input: process.stdin, terminal: false, crlfDelay: Infinity });
 rl.on('line', function (line) {
   let msg;
@@ -134,6 +155,7 @@ rl.on('line', function (line) {
     try {
       if (c.kind === 'exprs') results.push(runExprBatch(c));
       else if (c.kind === 'regex') results.push(runRegexBatch(c));
+      else if (c.kind === 'rxmatrix') results.push(runRegexMatrix(c));
       else results.push(runCase(c));
     } catch (e) {
       results.push({ oracle_error: String(e) });
